@@ -417,6 +417,15 @@ def unpredictable(t):
 
 # ------------------------------------------------------------------------------------------ entry
 
+def regenerate():
+    """Regenerate Gen/A64*.lean and the harness dispatch table from /repo's current arm64.rs (used by ./check setup)."""
+    os.makedirs(C.BUILD + "/tmp", exist_ok=True)
+    rpath = os.path.join(C.BUILD, "tmp", "c08_translate_setup.json")
+    with C.FLock("lake"):
+        rc, tlog = C.sh(["python3", TRANSLATOR, C.REPO, GEN_DIR, HSRC, rpath], timeout=600)
+    if rc != 0:
+        raise RuntimeError("translator failed:\n" + tlog[-2000:])
+
 def run(ctx):
     os.makedirs(C.BUILD + "/tmp", exist_ok=True)
     rpath = os.path.join(C.BUILD, "tmp", "c08_translate_%d.json" % os.getpid())
